@@ -12,7 +12,7 @@ import random
 
 from .. import common, identlib
 from ..gen import cfggen
-from ..translate import hashflags
+from ..translate import hashflags, hashsrc
 
 def cfgbuild_refs(v):
     if isinstance(v, dict):
@@ -26,12 +26,14 @@ def cfgbuild_refs(v):
 
 
 PROP = "C01"
-MODULES = ["XpmVerif.Properties.C01", "XpmVerif.Properties.C01Cache"]
+MODULES = ["XpmVerif.Properties.C01", "XpmVerif.Properties.C01Cache", "XpmVerif.Properties.HashSrc"]
 GOLDEN = common.VERIF / "corpus" / "golden_identifiers.json"
 
 
 def prove(ctx):
-    msgs = [hashflags.generate(common.REPO, common.LEAN, probe=identlib.loop_flag_probe(ctx))]
+    msgs = [hashflags.generate(common.REPO, common.LEAN, probe=identlib.loop_flag_probe(ctx)), hashsrc.generate(common.REPO, common.LEAN)]
+    ctx.notes.append(f"translator(hashsrc): {msgs[1][1]}")
+    ctx.count("translator", "hashsrc:" + ("translated" if msgs[1][1].startswith("translated") else "fallback"))
     ctx.notes.append(f"translator(hashflags): {msgs[0][1]}")
     common.check_proofs(ctx, MODULES, translate_msgs=msgs)
 
@@ -53,13 +55,14 @@ def make_case(rng, lib_index, lib, g):
     steps += [{"do": "op", "on": "B", "op": {"op": "raw", "n": k}} for k in order]
     # variant L: some self-contained nodes (no reference, no flag, no task link) are replaced by what save -> load /
     # state_dict -> from_state_dict / .copy() / copyconfig() returns for them before their parents are built
-    leaves = [k for k, nd in enumerate(g["nodes"]) if nd["meta"] is None and not nd["pre"] and not nd["init"] and nd["task"] is None
+    leaves = [k for k, nd in enumerate(g["nodes"]) if not nd["pre"] and not nd["init"] and nd["task"] is None
               and not any(cfgbuild_refs(v) for _, v in nd["values"]) and not nd.get("tags") and not nd.get("deps")
               and any(k in [r for _, v in other["values"] for r in cfgbuild_refs(v)] for other in g["nodes"])]
     loaded = {}
     if leaves and rng.random() < 0.6:
         for k in rng.sample(leaves, min(len(leaves), rng.choice([1, 1, 2]))):
-            loaded[k] = rng.choice(["state", "save", "copy", "copyconfig"])
+            # a node that carries a meta flag goes through the two serialised routes (the flag is part of what is written)
+            loaded[k] = rng.choice(["state", "save", "copy", "copyconfig"] if g["nodes"][k]["meta"] is None else ["state", "save"])
         gl = dict(g, loaded={str(k): v for k, v in loaded.items()})
         steps += [{"do": "build", "graph": gl, "as": "L"}, {"do": "graph", "of": "L"}]
         steps += [{"do": "op", "on": "L", "op": {"op": "full", "n": k}} for k in order]
